@@ -137,16 +137,10 @@ func (p *pod) GetQOSClass() v1.PodQOSClass {
 }
 
 func (p *pod) goFetchPodResources(ch <-chan *podresapi.PodResources) {
-	go func() {
-		p.podResCh = ch
-		p.waitResCh = make(chan struct{})
-		defer close(p.waitResCh)
-
-		if p.podResCh != nil {
-			p.PodResources = <-p.podResCh
-			log.Debug("fetched pod resources %+v for %s", p.PodResources, p.GetName())
-		}
-	}()
+	// The query itself already runs asynchronously and delivers its result
+	// to ch. Remember the channel; the result is collected by the first
+	// reader, which (like all cache access) runs with the caller's lock held.
+	p.podResCh = ch
 }
 
 func (p *pod) setPodResources(podRes *podresapi.PodResources) {
@@ -155,9 +149,11 @@ func (p *pod) setPodResources(podRes *podresapi.PodResources) {
 }
 
 func (p *pod) GetPodResources() *podresapi.PodResources {
-	if p.waitResCh != nil {
+	if p.podResCh != nil {
 		log.Debug("waiting for pod resources fetch to complete...")
-		<-p.waitResCh
+		p.PodResources = <-p.podResCh
+		p.podResCh = nil
+		log.Debug("fetched pod resources %+v for %s", p.PodResources, p.GetName())
 	}
 	return p.PodResources
 }
